@@ -155,11 +155,17 @@ class C14(Check):
             # list-valued, order-sensitive kinds: the ones most exposed to state shared between problems
             kinds = ["OrderedTaskGroup", "UnorderedTaskGroup", "TasksContiguous", "TaskPrecedence"]
         with_obj = rng.random() < 0.45
+        crowded = rng.random() < 0.25
+        if crowded:
+            # many placeholders on few workers: optional tasks, selections and constraints that
+            # order the busy intervals of a worker - sensitive to creation-order dependent values
+            kinds = ["ResourceNonDelay", "ResourceTasksDistance", "ResourceUnavailable", "TaskPrecedence"]
         prof = gen.profile(
-            n_tasks=(1, 5 if big else 4), p_optional=0.25, p_zero=0.12, p_variable=0.3, p_release=0.15, p_due=0.15, n_workers=(0, 3), p_select=0.45,
-            p_cumulative=0.25, p_assign=0.7, p_dynamic=0.12, p_delayed=0.12, p_work=0.2, p_horizon=0.85, slack=(0, 5),
-            constraints=kinds, n_constraints=(0, 3), n_buffers=(0, 1) if rng.random() < 0.2 else (0, 0),
-            indicators=["FromMathExpression", "ResourceUtilization", "NumberTasksAssigned", "Tardiness"] if with_obj or rng.random() < 0.2 else [],
+            n_tasks=(2, 5) if crowded else (1, 5 if big else 4), p_optional=0.6 if crowded else 0.25, p_zero=0.12, p_variable=0.3, p_release=0.15, p_due=0.15,
+            n_workers=(2, 2) if crowded else (0, 3), p_select=0.9 if crowded else 0.45,
+            p_cumulative=0.25, p_assign=0.95 if crowded else 0.7, p_dynamic=0.12, p_delayed=0.12, p_work=0.2, p_horizon=0.85, slack=(0, 5),
+            constraints=kinds, n_constraints=(1, 3) if crowded else (0, 3), n_buffers=(0, 1) if rng.random() < 0.2 else (0, 0),
+            indicators=["ResourceIdle", "FromMathExpression"] if crowded else ["FromMathExpression", "ResourceUtilization", "NumberTasksAssigned", "Tardiness"] if with_obj or rng.random() < 0.2 else [],
             n_indicators=(1, 2), objectives=OBJECTIVES if with_obj else [], n_objectives=(1, 1),
         )
         spec = gen.gen_spec(keyed_rng(run_seed, "spec"), prof)
